@@ -110,6 +110,7 @@ type transaction struct {
 	store   *store
 	op      keyvalue.OpID
 	results []keyvalue.OpResult
+	unlock  sync.Once
 }
 
 func (s *store) Transaction(options keyvalue.TransactionOptions) (keyvalue.Transaction, error) {
@@ -180,13 +181,21 @@ func (t *transaction) SetHandler(path string, src keyvalue.FileRecord, contents 
 }
 
 func (t *transaction) Commit(ctx context.Context) ([]keyvalue.OpResult, error) {
-	t.abort()
-	t.store.mu.Unlock()
+	err := t.ctx.Err() // already aborted?
+	t.release()
+	if err != nil {
+		return nil, err
+	}
 	return t.results, nil
 }
 
 func (t *transaction) Abort() error {
-	t.abort()
-	t.store.mu.Unlock()
+	t.release()
 	return nil
+}
+
+// release ends the transaction and unlocks the store, exactly once. Commit and Abort can follow each other in any order, e.g. a handler's Abort and then the caller's Commit.
+func (t *transaction) release() {
+	t.abort()
+	t.unlock.Do(t.store.mu.Unlock)
 }
